@@ -240,6 +240,8 @@ class Agg:
         if "stopped_after_seed" in r:
             return
         self.runs += 1
+        self.tracesigs = getattr(self, "tracesigs", {})
+        self.tracesigs[r["seed"]] = r.get("tracesig")
         self.wall_ms += r.get("wall_ms", 0)
         self.sim_ms = getattr(self, "sim_ms", 0) + r.get("sim_ms", 0)
         if r.get("nontrivial"):
